@@ -65,7 +65,10 @@ def finite(x):
 
 
 def close(a, b, rel=1e-12):
-    """numeric agreement within the property's tolerance"""
+    """numeric agreement within the property's tolerance; two integers agree only if they are equal"""
+    import numpy as _np
+    if isinstance(a, (int, _np.integer)) and isinstance(b, (int, _np.integer)):
+        return int(a) == int(b)
     try:
         a = complex(a)
         b = complex(b)
@@ -91,6 +94,10 @@ def find_replayable(E, path, cond, lv, concrete_fn, tries=8, nice=64, hints=()):
     plans = [list(h) if isinstance(h, (list, tuple)) else [h] for h in hints] + [None] * tries
     for attempt, hint in enumerate(plans):
         bounds = [v <= nice for (_, _, v) in lv.vars] if attempt < len(plans) - tries // 2 else []
+        if not bounds and not hint:
+            # steering only: an integer beyond 2**53 is taken odd (no double represents it), so that a conversion the model
+            # left open (terms.to_f64) shows in the concrete replay
+            bounds = [z3.Or(v <= 2 ** 53, z3.And(v % 2 == 1, v < 2 ** 62)) for (_, k, v) in lv.vars if k == "int"]
         extra = block + bounds + (hint or [])
         r, mdl = E.query(path, cond, extra=extra)
         if r == "unsat" and (bounds or hint):
